@@ -64,7 +64,7 @@ class Module:
         self.denamed = 0
         if not os.environ.get("VERIF_NO_DENAME"):
             from sa.dename import dename
-            self.denamed = dename(self.tree, rel)
+            self.denamed = dename(self.tree, rel, hashlib.sha256(src.encode("utf-8")).hexdigest())
         if not os.environ.get("VERIF_NO_CANON"):
             from sa.canon import canonicalise
             self.tree = canonicalise(self.tree)
